@@ -30,7 +30,9 @@ class C20(object):
     required_counters = ('module.ran', 'module.ran.with_variables_named_like_template_locals', 'module.ran.with_variable_T_next_to_t', 'module.ran.with_own_time_variable_and_lagged_step_counter', 'equations_judged', 'vs_inprocess.compared', 'header.judged',
                          'module.without_user_time', 'generator.reused', 'bundled.ran',
                          'module.ran.with_expressions_that_look_like_lag_spellings',
-                         'generator.warning_raised_and_caught')
+                         'generator.warning_raised_and_caught',
+                         'module.ran.driven_in_stages',
+                         'module.ran.with_lag_of_a_synonym_under_generator_reduction')
 
     def n_cases(self, tier):
         return 120 if tier == 'quick' else 6000
@@ -76,6 +78,15 @@ class C20(object):
             # model variables named like the locals of the generated step function
             case['text'] = 'err = 0.5*%s - 1.0\ncnt = 2.0*%s + 3.0\nnew_vector = 0.25*err\n' % (xs[0], xs[0]) + case['text']
             case['template_local_names'] = True
+        if idx % 8 == 4:
+            # a pure synonym of a state that starts away from zero, its own lag, and a user of that lag - emitted by a generator
+            # that runs the equation reduction (which substitutes synonyms)
+            # (the synonym has no initial condition: the module starts it at 0.0, the in-process solver at its target's k=0 value, so
+            # use_syn in period 1 is outside the "same k=0 values" comparison; the residual monitor judges it on the module's own lag)
+            case['text'] = 'syn_m = %s\nLAG_syn = syn_m(k-1)\nuse_syn = 0.5*LAG_syn + 1.0\n' % xs[0] + case['text']
+            case['gen_reduction'] = True
+            case['lagged_synonym'] = True
+        case['drive'] = {2: 'steps_then_main', 4: 'main_twice', 5: 'paused_and_resumed'}.get(idx % 6, 'main')
         if idx % 8 == 6:
             # warnings are errors in this process: the generator's report about an ignored line is RAISED while it reads the
             # second block; the caller catches it and emits the module anyway
@@ -197,7 +208,26 @@ class C20(object):
                 with contextlib.redirect_stdout(io.StringIO()):
                     sp.loader.exec_module(mod)
                     obj = mod.SFCModel()
-                    obj.main()
+                    drive = case.get('drive', 'main')
+                    if drive == 'steps_then_main':
+                        # the first periods are stepped one at a time (a caller inspecting them), main() finishes the run
+                        for _ in range(min(2, T)):
+                            obj.RunOneStep()
+                        obj.main()
+                    elif drive == 'main_twice':
+                        obj.main()
+                        obj.main()
+                    elif drive == 'paused_and_resumed' and T >= 2:
+                        full = obj.MaxTime
+                        obj.MaxTime = 1
+                        obj.main()
+                        obj.MaxTime = full
+                        obj.main()
+                    else:
+                        drive = 'main'
+                        obj.main()
+                    if drive != 'main':
+                        rec.count('module.ran.driven_in_stages')
             except Exception as e:
                 rec.violate('generated_module_does_not_run', {'err': repr(e)[:300], 'text': case['text'],
                                                               'user_time': bool(spec['time'])},
@@ -212,6 +242,8 @@ class C20(object):
                 rec.count('module.ran.with_expressions_that_look_like_lag_spellings')
             if case.get('own_time_and_lagged_k'):
                 rec.count('module.ran.with_own_time_variable_and_lagged_step_counter')
+            if case.get('lagged_synonym'):
+                rec.count('module.ran.with_lag_of_a_synonym_under_generator_reduction')
             if not spec['time']:
                 rec.count('module.without_user_time')
             # collect the module's series
@@ -253,6 +285,8 @@ class C20(object):
                 worst = 0.0
                 for n in names:
                     for k in range(1, T + 1):
+                        if case.get('lagged_synonym') and n == 'use_syn' and k == 1:
+                            continue
                         a, b = series[n][k], s.TimeSeries[n][k]
                         lim = 1e3 * tol * max(1.0, abs(a), abs(b)) / (1.0 - spec['rho'])
                         worst = max(worst, abs(a - b) / lim)
